@@ -2,6 +2,12 @@ NOTES = ('Bounded-exhaustive model checking of the real implementation; see DESI
          'Known genuine defects are listed in known_findings.json.')
 NOT_APPLICABLE = {}
 CHECKS = {
+ 'C11': dict(engine='E3', design_ref='4/C11',
+    technique='exhaustive enumeration: full product model x flag base x orders x point-set letters with a complete unit-amplitude basis plus generic amplitude letters; complete product thread counts 1..16 x point counts 1..33; assembly/bay compositions; real field kernels vs the reference Ritz series and Donnell kinematics',
+    text='Displacements, rotations, strains (with and without quadratic slope terms) and stress resultants returned by the public API are compared point-wise with the reference series; '
+         'stress must be the laminate matrix times the strains reported for the same request; bit-identical results for every (thread count, point count) pair and for permuted points; '
+         'each assembly group / bay region must be evaluated with its own slice of the amplitude vector.',
+    note='the sum-of-squares defect of the non-linear strain kernel is a known finding matched by an explained-by signature; the w-only field module offers displacements only'),
  'C20': dict(engine='E2', design_ref='2.2, 4/C20',
     technique='explicit-state breadth-first search over histories of public calls on real objects (state = digest of the complete attribute dictionary, replay on fresh objects, merging of equal states), invariants checked on every transition',
     text='For Panel (flat, cylindrical), PanelAssembly and StiffPanelBay (four stiffener kinds) every history of public evaluation calls up to depth 2 (quick) / 3 (thorough) is executed; '
